@@ -1557,8 +1557,10 @@ where
     D::Doc: Clone + Pretty<'a, D, A>,
     A: Clone,
 {
-    // Collect items between delimiters, excluding commas
+    // Collect items between delimiters; an item is everything between two commas
+    // (a typed parameter `x:float` or a default `g = 2.0` has several children)
     let mut items = Vec::new();
+    let mut current: Option<DocBuilder<'a, D, A>> = None;
     let mut open_doc = allocator.nil();
     let mut close_doc = allocator.nil();
     let mut found_open = false;
@@ -1579,6 +1581,9 @@ where
                 }
                 TokenKind::Comma => {
                     // Skip commas - we'll add them with proper breaking
+                    if let Some(item) = current.take() {
+                        items.push(item);
+                    }
                     continue;
                 }
                 _ => {}
@@ -1586,8 +1591,15 @@ where
         }
 
         if found_open {
-            items.push(cst_to_doc(child, ctx, allocator));
+            let doc = cst_to_doc(child, ctx, allocator);
+            current = Some(match current.take() {
+                Some(item) => item.append(doc),
+                None => doc,
+            });
         }
+    }
+    if let Some(item) = current.take() {
+        items.push(item);
     }
 
     if items.is_empty() {
